@@ -150,8 +150,10 @@ def campaign(ctx, njobs):
         if len(dumps) == 2 and dumps[0] != dumps[1]:
             x, y = dumps[0].split("hex=")[1], dumps[1].split("hex=")[1]
             d = next((i for i in range(0, min(len(x), len(y)), 2) if x[i:i + 2] != y[i:i + 2]), min(len(x), len(y)))
-            probs.append(B.Problem(j, "pred", "readonly", "reading the file and closing the read handle changed its bytes (the two `dump` lines): byte %d of %d was %s, is %s (length now %d)"
-                                   % (d // 2, len(x) // 2, x[d:d + 2] or "<none>", y[d:d + 2] or "<none>", len(y) // 2), None))
+            pr = B.Problem(j, "pred", "readonly", "reading the file and closing the read handle changed its bytes (the two `dump` lines): byte %d of %d was %s, is %s (length now %d)"
+                           % (d // 2, len(x) // 2, x[d:d + 2] or "<none>", y[d:d + 2] or "<none>", len(y) // 2), None)
+            pr.expect = dumps[0].strip()
+            probs.append(pr)
         stats["jobs"] += 1
         stats["ops"] += len(j.calls) + len(j.rops) + 3
         stats["frames"] += j.n
@@ -191,8 +193,10 @@ def campaign(ctx, njobs):
                 req = int(t[4])
                 exp = min(req, max(F - pos, 0))
                 if ret != exp:
-                    probs.append(B.Problem(j, "pred", "eof" if pos >= F else "position",
-                                           "read of %d items at frame %d of %d returned %d (expected %d)" % (req, pos, F, ret, exp), k))
+                    pr = B.Problem(j, "pred", "eof" if pos >= F else "position",
+                                   "read of %d items at frame %d of %d returned %d (expected %d)" % (req, pos, F, ret, exp), k)
+                    pr.expect = "ret=%d err=0" % exp
+                    probs.append(pr)
                     break
                 if data[:exp] != ref[pos:pos + exp]:
                     d = next((i for i in range(exp) if pos + i >= len(ref) or data[i] != ref[pos + i]), 0)
@@ -202,7 +206,22 @@ def campaign(ctx, njobs):
                     probs.append(pr)
                     break
                 pos += exp
+    for p in probs:
+        p.impl_lines = impl.get(p.job.name, [])
     return probs, stats, hs, jobs
+
+
+def replay_head(p, script):
+    """`expect-last` (what a library that honours the contract answers on the last line) where that is known, else `observed-last`
+    (the violating answer: the violation persists while the tree still gives it) -- what `bin/check Cxx --replay f` judges"""
+    last = script.strip().split("\n")[-1].split()
+    if getattr(p, "expect", None):
+        return "expect-last %s\n" % p.expect
+    if p.cat == "count" and last[:1] == ["w"]:
+        return "expect-last ret=%s err=0\n" % last[4]
+    if p.line is not None and not getattr(p, "twin_script", None) and p.line < len(p.impl_lines) and p.cat != "crash":
+        return "observed-last %s\n" % p.impl_lines[p.line].strip()
+    return ""
 
 
 def run(ctx, prop, njobs):
@@ -225,8 +244,8 @@ def run(ctx, prop, njobs):
         if getattr(p, "twin_script", None):
             script = hs[j.name] + "# --- the same samples, one write call, one read call:\n" + p.twin_script
         ctx.violation("%s-vox-%s" % (prop.lower(), p.cat),
-                      "# %s violated on the implementation's own transcript (OKI/VOX campaign, %s)\n# %s: %d frames in %d write calls\n# %s\n--- script\n%s"
-                      % (prop, p.cat, j.name, j.n, len(j.calls), p.text, script))
+                      "# %s violated on the implementation's own transcript (OKI/VOX campaign, %s)\n# %s: %d frames in %d write calls\n# %s\n%s--- script\n%s"
+                      % (prop, p.cat, j.name, j.n, len(j.calls), p.text, replay_head(p, script), script))
     corr = [p for p in probs if p.kind == "corr"]
     if corr and not found:
         p = corr[0]
